@@ -514,6 +514,215 @@ Proof.
   intros op s outprev HS. apply c07_flags_model. exact HS.
 Qed.
 
+(* ---------- refresh exactness as decided by the spec (C09 clause 1) ---------- *)
+Lemma pget_below {A} p (m : pmap A) : (forall k, In k (keys m) -> p < k) -> pget p m = None.
+Proof.
+  induction m as [|[q w] m IH]; intros H; [reflexivity|]. cbn [pget]. cbn [keys map fst] in H.
+  replace (q =? p) with false by (specialize (H q (or_introl eq_refl)); lia). apply IH. intros k Hk. apply H. right. exact Hk.
+Qed.
+
+Lemma sorted_ext {A} : forall (m1 m2 : pmap A), ssorted (keys m1) -> ssorted (keys m2) ->
+  (forall p, pget p m1 = pget p m2) -> m1 = m2.
+Proof.
+  induction m1 as [|[k1 v1] r1 IH]; intros m2 H1 H2 He.
+  - destruct m2 as [|[k2 v2] r2]; [reflexivity|]. specialize (He k2). cbn [pget] in He. rewrite Z.eqb_refl in He. discriminate.
+  - destruct m2 as [|[k2 v2] r2]; [specialize (He k1); cbn [pget] in He; rewrite Z.eqb_refl in He; discriminate|].
+    cbn [keys map fst] in H1, H2.
+    pose proof (ssorted_lb k1 (map fst r1) H1) as L1. pose proof (ssorted_lb k2 (map fst r2) H2) as L2.
+    assert (Hk : k1 = k2).
+    { destruct (Z.eq_dec k1 k2) as [|Hne]; [assumption|exfalso].
+      pose proof (He k1) as E1. pose proof (He k2) as E2. cbn [pget] in E1, E2. rewrite Z.eqb_refl in E1, E2.
+      replace (k2 =? k1) with false in E1 by lia. replace (k1 =? k2) with false in E2 by lia.
+      assert (In k1 (keys r2)) by (apply pget_in_keys; congruence).
+      assert (In k2 (keys r1)) by (apply pget_in_keys; congruence).
+      specialize (L1 k2 H0). specialize (L2 k1 H). lia. }
+    subst k2. pose proof (He k1) as E1. cbn [pget] in E1. rewrite Z.eqb_refl in E1. inversion E1; subst v2. f_equal.
+    apply IH; [destruct H1; assumption|destruct H2; assumption|].
+    intros p. destruct (Z.eq_dec p k1) as [->|Hne].
+    + rewrite !pget_below; auto.
+    + specialize (He p). cbn [pget] in He. replace (k1 =? p) with false in He by lia. exact He.
+Qed.
+
+Lemma ins_uniq_In k l x : In x (ins_uniq k l) <-> x = k \/ In x l.
+Proof.
+  induction l as [|k' r IH]; cbn [ins_uniq]; [cbn; intuition|].
+  destruct (k <? k') eqn:E1; [cbn; intuition|]. destruct (k =? k') eqn:E2.
+  - assert (k = k') by lia. subst. cbn. intuition.
+  - cbn [In]. rewrite IH. intuition.
+Qed.
+
+Lemma ins_uniq_sorted k l : ssorted l -> ssorted (ins_uniq k l).
+Proof.
+  induction l as [|k' r IH]; intros H; cbn [ins_uniq]; [cbn; auto|].
+  destruct (k <? k') eqn:E1; [cbn [ssorted] in *; split; [lia|exact H]|].
+  destruct (k =? k') eqn:E2; [exact H|]. destruct H as [H1 H2]. specialize (IH H2). cbn [ssorted]. split; [|exact IH].
+  destruct r as [|k'' r]; cbn [ins_uniq] in *; [lia|]. destruct (k <? k''); [lia|]. destruct (k =? k''); lia.
+Qed.
+
+Lemma sort_uniq_sorted l : ssorted (sort_uniq l).
+Proof. induction l as [|x l IH]; [exact I|]. unfold sort_uniq in *. cbn [fold_right]. apply ins_uniq_sorted. exact IH. Qed.
+
+Lemma sort_uniq_In l x : In x (sort_uniq l) <-> In x l.
+Proof.
+  induction l as [|y l IH]; [tauto|]. unfold sort_uniq in *. cbn [fold_right]. rewrite ins_uniq_In, IH. cbn. intuition.
+Qed.
+
+Lemma existsb_sort_uniq p l : existsb (Z.eqb p) (sort_uniq l) = existsb (Z.eqb p) l.
+Proof. apply Bool.eq_iff_eq_true. rewrite !existsb_Zeqb_In. apply sort_uniq_In. Qed.
+
+Section FM.
+  Variable ge : Z -> option (Z * Z).
+  Definition gl (x : Z) : list (Z * (Z * Z)) := match ge x with Some v => [(x, v)] | None => [] end.
+
+  Lemma fm_keys L : forall k, In k (keys (flat_map gl L)) -> In k L.
+  Proof.
+    induction L as [|x r IH]; intros k Hk; [exact Hk|]. cbn [flat_map] in Hk. unfold keys in Hk. rewrite map_app in Hk.
+    apply in_app_or in Hk as [Hk|Hk]; [|right; apply IH; exact Hk].
+    unfold gl in Hk. destruct (ge x); cbn in Hk; [left; tauto|contradiction].
+  Qed.
+
+  Lemma fm_sorted L : ssorted L -> ssorted (keys (flat_map gl L)).
+  Proof.
+    induction L as [|x r IH]; intros H; [exact I|]. cbn [flat_map]. pose proof (ssorted_lb x r H) as Hlb.
+    destruct H as [_ H]. specialize (IH H). unfold gl at 1. destruct (ge x); [|exact IH]. cbn [app keys map fst].
+    cbn [ssorted]. split; [|exact IH].
+    destruct (flat_map gl r) as [|[k v] m] eqn:E; [exact I|]. cbn [map fst]. apply Hlb. apply fm_keys. rewrite E. left. reflexivity.
+  Qed.
+
+  Lemma fm_get L p : ssorted L -> pget p (flat_map gl L) = if existsb (Z.eqb p) L then ge p else None.
+  Proof.
+    induction L as [|x r IH]; intros H; [reflexivity|]. cbn [flat_map existsb]. pose proof (ssorted_lb x r H) as Hlb.
+    destruct H as [_ H]. specialize (IH H).
+    destruct (Z.eq_dec p x) as [->|Hne].
+    - rewrite Z.eqb_refl. cbn [orb]. unfold gl at 1. destruct (ge x) eqn:Eg; cbn [app pget]; [now rewrite Z.eqb_refl|].
+      rewrite IH. destruct (existsb (Z.eqb x) r) eqn:Ee; [|reflexivity]. apply existsb_Zeqb_In in Ee. specialize (Hlb x Ee). lia.
+    - replace (p =? x) with false by lia. cbn [orb]. unfold gl at 1. destruct (ge x); cbn [app pget]; [|exact IH].
+      replace (x =? p) with false by lia. exact IH.
+  Qed.
+End FM.
+
+Lemma head_req_sort_key t p : head_req (sort_key t) p = get t p.
+Proof. unfold head_req, get. now rewrite lookup_sort_key. Qed.
+
+Lemma expected_is_candidates ow act t : expected_active ow (sort_key t) act = candidates ow act t.
+Proof.
+  set (ge := fun p => cand_entry act t p).
+  assert (Hform : expected_active ow (sort_key t) act = flat_map (gl ge) (sort_uniq ow)).
+  { unfold expected_active. apply flat_map_ext. intros p. unfold gl, ge, cand_entry. rewrite head_req_sort_key.
+    destruct (get t p) as [[f to]|]; reflexivity. }
+  rewrite Hform. apply sorted_ext.
+  - apply fm_sorted. apply sort_uniq_sorted.
+  - apply candidates_sorted.
+  - intros p. rewrite fm_get by apply sort_uniq_sorted. rewrite existsb_sort_uniq, candidates_get. reflexivity.
+Qed.
+
+Lemma keys_tos_keys m : keys (keys_tos m) = keys m.
+Proof. unfold keys, keys_tos. rewrite map_map. reflexivity. Qed.
+
+Lemma pget_keys_tos p m : pget p (keys_tos m) = option_map snd (pget p m).
+Proof.
+  induction m as [|[q [f to]] m IH]; [reflexivity|]. cbn [keys_tos map pget fst snd]. destruct (q =? p); [reflexivity|exact IH].
+Qed.
+
+Lemma keys_tos_iff_unchanged cand act :
+  ssorted (keys cand) -> ssorted (keys act) ->
+  list_eqb zz_eqb (keys_tos cand) (keys_tos act) = negb (changed cand act).
+Proof.
+  intros Hc Ha. destruct (changed cand act) eqn:Ech; cbn [negb].
+  - destruct (list_eqb zz_eqb (keys_tos cand) (keys_tos act)) eqn:E; [|reflexivity]. exfalso.
+    apply (list_eqb_eq zz_eqb zz_eqb_eq) in E.
+    assert (Hf : changed cand act = false); [|congruence].
+    unfold changed. assert (Hl : length cand = length act).
+    { rewrite <- (map_length (fun e => (fst e, snd (snd e))) cand), <- (map_length (fun e => (fst e, snd (snd e))) act). exact (f_equal (@length _) E). }
+    rewrite Hl, Nat.eqb_refl. apply Bool.not_true_iff_false. intros Hex. apply existsb_exists in Hex as [[k [f to]] [Hin Hx]].
+    cbn [fst snd] in Hx. pose proof (In_pget k (f, to) cand Hc Hin) as Hp.
+    assert (Hk : pget k (keys_tos act) = Some to) by (rewrite <- E, pget_keys_tos, Hp; reflexivity).
+    rewrite pget_keys_tos in Hk. destruct (pget k act) as [[af ato]|]; cbn in Hk; [|discriminate]. inversion Hk; subst. lia.
+  - pose proof (unchanged_same_keys cand act Hc Ha Ech) as Hu.
+    replace (keys_tos cand) with (keys_tos act); [apply list_eqb_refl; apply zz_eqb_refl|].
+    apply sorted_ext; [now rewrite keys_tos_keys|now rewrite keys_tos_keys|].
+    intros p. rewrite !pget_keys_tos. destruct (Hu p) as [Hdom Hto].
+    destruct (pget p cand) as [[cf ct]|] eqn:E1, (pget p act) as [[af at']|] eqn:E2; cbn [option_map snd]; try reflexivity.
+    + f_equal. symmetry. eapply Hto; reflexivity.
+    + exfalso. apply (proj1 Hdom); congruence.
+    + exfalso. apply (proj2 Hdom); congruence.
+Qed.
+
+(* the spec's decision about one refresh, on the model *)
+Lemma refresh_after_model s s' calls a :
+  SI s -> refresh s = (s', calls) -> b_active a = active s' ->
+  c09_refresh_after (sort_key (trk s)) (owned s) (active s) calls a = [].
+Proof.
+  intros HS Hr Ha. unfold c09_refresh_after. rewrite expected_is_candidates.
+  rewrite (keys_tos_iff_unchanged _ _ (candidates_sorted _ _ _) HS).
+  unfold refresh in Hr. destruct (changed _ _); inversion Hr; subst; cbn [negb]; rewrite Ha; cbn [active].
+  - rewrite amap_eqb_refl. cbn [list_eqb]. rewrite !call_eqb_refl. reflexivity.
+  - rewrite amap_eqb_refl. reflexivity.
+Qed.
+
+Lemma rec_step_calls cfg s p o f t : pget p (active s) = Some (f, t) -> (f <=? o) && (t <? o) = false ->
+  o_calls (snd (rec_step cfg s p o)) = [].
+Proof.
+  intros Ha Hw. pose proof (rec_step_case cfg s p o) as Hc. destruct (rec_step cfg s p o) as [s1 out]. cbn [fst snd] in *.
+  destruct Hc as [Ha'|f' t' Ha' Hlt|f' t' s' calls Ha' Hfo Hto Hr|f' t' r Ha' Hfo Hot Hr]; try reflexivity.
+  rewrite Ha in Ha'. inversion Ha'; subst. lia.
+Qed.
+
+Lemma rec_step_calls_inactive cfg s p o : pget p (active s) = None -> o_calls (snd (rec_step cfg s p o)) = [].
+Proof. intros Ha. unfold rec_step. rewrite Ha. reflexivity. Qed.
+
+Lemma c09_refresh_rec cfg s p o outprev s1 o1 : SI s ->
+  o_calls o1 = o_calls (snd (rec_step cfg s p o)) -> trk s1 = trk (fst (rec_step cfg s p o)) ->
+  active s1 = active (fst (rec_step cfg s p o)) ->
+  match pget p (b_active (mk_opobs s outprev)) with
+  | Some (f, t) =>
+      if (f <=? o) && (t <? o)
+      then c09_refresh_after (b_trk (mk_opobs s1 o1)) (b_owned (mk_opobs s outprev)) (b_active (mk_opobs s outprev)) (b_calls (mk_opobs s1 o1)) (mk_opobs s1 o1)
+      else match b_calls (mk_opobs s1 o1) with [] => [] | _ => [(1, [4])] end
+  | None => match b_calls (mk_opobs s1 o1) with [] => [] | _ => [(1, [4])] end
+  end = ([] : list fail).
+Proof.
+  intros HS Hc Ht Ha. cbn [b_active b_trk b_owned b_calls mk_opobs].
+  destruct (pget p (active s)) as [[f t]|] eqn:Eact; [|rewrite Hc, rec_step_calls_inactive; auto].
+  destruct ((f <=? o) && (t <? o)) eqn:Ew; [|rewrite Hc, (rec_step_calls cfg s p o f t Eact Ew); reflexivity].
+  rewrite Hc, Ht. rewrite (rec_step_complete cfg s p o f t Eact ltac:(lia) ltac:(lia)). cbn [fst snd o_calls].
+  set (s0 := with_trk s (ts (complete (trk s) p t)) (tout (complete (trk s) p t))).
+  rewrite refresh_trk.
+  assert (HS0 : SI s0) by exact HS.
+  destruct (refresh s0) as [s' calls] eqn:Er. cbn [fst snd].
+  apply (refresh_after_model s0 s' calls _ HS0 Er). cbn [b_active mk_opobs]. rewrite Ha.
+  rewrite (rec_step_complete cfg s p o f t Eact ltac:(lia) ltac:(lia)). cbn [fst]. fold s0. now rewrite Er.
+Qed.
+
+Lemma c09_refresh_model cfg op s outprev : SI s ->
+  c09_refresh op (mk_opobs s outprev) (mk_opobs (fst (rstep cfg s op)) (snd (rstep cfg s op))) = [].
+Proof.
+  intros HS. unfold c09_refresh.
+  destruct op as [p k|p d|p d|p o|p o|code wm lows| |ps| |p f t|cerr pcs|m| |p|p d]; try reflexivity.
+  - cbn [single_record]. destruct k as [|[|k]]; try reflexivity. cbn [b_cli mk_opobs].
+    destruct (pget p (cli s)) as [n|] eqn:En; [|reflexivity].
+    destruct (pump1_obs cfg s p n En) as [_ [_ [H3 [H4 [H5 _]]]]].
+    apply (c09_refresh_rec cfg s p n outprev); assumption.
+  - cbn [single_record b_cli mk_opobs rstep]. fold (stale_offset s p d).
+    apply (c09_refresh_rec cfg s p (stale_offset s p d) outprev); auto.
+  - cbn [single_record rstep]. apply (c09_refresh_rec cfg s p o outprev); auto.
+  - cbn [rstep b_trk b_owned b_active b_calls mk_opobs]. destruct (refresh s) as [s' calls] eqn:Er. cbn [fst snd o_calls].
+    apply (refresh_after_model s s' calls _ HS Er). reflexivity.
+  - cbn [rstep b_trk b_owned b_active b_calls mk_opobs].
+    set (s1 := {| owned := []; active := active s; trk := trk s; cli := cli s; mlog := mlog s |}).
+    destruct (refresh s1) as [s' calls] eqn:Er. cbn [fst snd o_calls].
+    pose proof (revoke_clears cfg s) as [H1 [H2 _]]. cbn [rstep] in H1, H2. fold s1 in H1, H2. rewrite Er in H1, H2. cbn [fst] in H1, H2.
+    rewrite H1, H2. cbn [app].
+    assert (HS1 : SI s1) by exact HS.
+    apply (refresh_after_model s1 s' calls _ HS1 Er). reflexivity.
+Qed.
+
+Theorem c09_refresh_sound cfg ops : scan c09_refresh ops obs0 (model_l cfg init_state ops) = [].
+Proof.
+  rewrite obs0_init. apply (scan_model_inv c09_refresh cfg SI); [intros op s; apply SI_rstep| |exact SI_init].
+  intros op s outprev HS. apply c09_refresh_model. exact HS.
+Qed.
+
 (* ---------- summary ---------- *)
 Lemma model_obs_logic cfg ops : model_obs (ILogic cfg ops) = OLogic (model_l cfg init_state ops).
 Proof. reflexivity. Qed.
@@ -523,7 +732,7 @@ Theorem spec_c07_clauses_234_sound cfg ops :
   scan c07_flags ops obs0 l = [] /\ scan c07_complete ops obs0 l = [] /\ scan c07_trunc ops obs0 l = [].
 Proof. cbv zeta. split; [apply c07_flags_sound|split; [apply c07_complete_sound|apply c07_trunc_sound]]. Qed.
 
-Theorem spec_c09_clauses_45_sound cfg ops :
+Theorem spec_c09_clauses_145_sound cfg ops :
   let l := model_l cfg init_state ops in
-  c09_revoked ops l false = [] /\ scan c09_owned ops obs0 l = [].
-Proof. cbv zeta. split; [apply c09_revoked_sound|apply c09_owned_sound]. Qed.
+  scan c09_refresh ops obs0 l = [] /\ c09_revoked ops l false = [] /\ scan c09_owned ops obs0 l = [].
+Proof. cbv zeta. split; [apply c09_refresh_sound|split; [apply c09_revoked_sound|apply c09_owned_sound]]. Qed.
